@@ -217,6 +217,7 @@ trace1 = z3.Function('trace1', A2R, INT, REAL)
 sumdot = z3.Function('sumdot', A2R, A2R, INT, REAL)              # sum of all entries of the matrix product X.Y (m x m)
 umul = z3.Function('umul', REAL, REAL, REAL)                     # product of two non-constant reals, uninterpreted (contracts with nonlinear='uf')
 udiv = z3.Function('udiv', REAL, REAL, REAL)                     # quotient by a non-constant real, uninterpreted
+QrawB = z3.Function('QrawB', A2R, A1I, INT, REAL)                 # sum_{x,y<n} B[x][y] [c[x] = c[y]] for an arbitrary kernel B
 Qmod = z3.Function('Qmod', A2R, A1I, REAL, INT, REAL)            # modularity (1/s) sum_{x,y} (W[x][y] - gamma k_out[x] k_in[y] / s) [ci[x] = ci[y]]
 isperm = z3.Function('isperm', A1I, INT, BOOL)          # p restricted to [0,n) is a bijection of [0,n)
 ixperm = z3.Function('ixperm', A2R, A1I, A2R)           # M[np.ix_(p, p)]
@@ -304,6 +305,10 @@ def spec_axioms():
     # products / quotients of two symbolic reals are kept uninterpreted (umul/udiv) with the shape the code computes them in
     ax.append(z3.ForAll([M, c, u, l, gam, n], z3.Implies(z3.And(inu, l != cu, s_ != 0), Qmod(M, Sc, gam, n) - Qmod(M, c, gam, n) == udiv(out_part + in_part, s_)),
                         patterns=[Qmod(M, Sc, gam, n)]))
+    # arbitrary kernel B (Lean: Qraw_move): moving u to a different module l
+    ax.append(z3.ForAll([M, c, u, l, n], z3.Implies(z3.And(inu, l != cu), QrawB(M, Sc, n) - QrawB(M, c, n) ==
+                                                    (modsum(M, c, u, l - 1, n) - modsum(M, c, u, cu - 1, n) + wuu) + (modsumT(M, c, u, l - 1, n) - modsumT(M, c, u, cu - 1, n) + wuu)),
+                        patterns=[QrawB(M, Sc, n)]))
     ra, rb = z3.Reals('ra_ rb_')
     ax.append(z3.ForAll([ra, rb], z3.Implies(z3.And(ra > 0, rb > 0), udiv(ra, rb) > 0), patterns=[udiv(ra, rb)]))
     ax.append(z3.ForAll([ra, rb], z3.Implies(z3.And(ra >= 0, rb > 0), udiv(ra, rb) >= 0), patterns=[udiv(ra, rb)]))
@@ -369,7 +374,7 @@ class Contract:
     """Sidecar contract of one function (see /verif/contracts/*.py)."""
 
     def __init__(self, module, name, params, requires=(), ensures=(), loops=None, abstract=None, ghost_after=None,
-                 ghost_before=None, notes='', ensures_raises=None, setup=None, assume_after=None, stop_at=None, key=None, nonlinear=None):
+                 ghost_before=None, notes='', ensures_raises=None, setup=None, assume_after=None, stop_at=None, key=None, nonlinear=None, fragment=None):
         self.module, self.name, self.params = module, name, params
         self.requires, self.ensures = list(requires), list(ensures)
         self.loops = dict(loops or {})
@@ -383,6 +388,7 @@ class Contract:
         self.stop_at = stop_at
         self.key = key or name
         self.nonlinear = nonlinear
+        self.fragment = fragment
 
 
 class Engine:
@@ -1151,6 +1157,32 @@ class Engine:
         body = self.fd.body
         if body and isinstance(body[0], ast.Expr) and isinstance(body[0].value, ast.Constant) and isinstance(body[0].value.value, str):
             body = body[1:]
+        if getattr(self.c, 'fragment', None):
+            # verify a contiguous run of statements of one block (e.g. one hierarchy level of a Louvain routine) from an
+            # arbitrary state described by the contract's setup + requires (those are ASSUMPTIONS about the fragment's entry)
+            k0, k1 = self.c.fragment
+            found = None
+            for node in ast.walk(self.fd):
+                for field in ('body', 'orelse'):
+                    lst = getattr(node, field, None)
+                    if isinstance(lst, list):
+                        keys = [self.stmt_ord.get(id(x), '') for x in lst]
+                        plain = [self._key(x) if isinstance(x, ast.stmt) else '' for x in lst]
+                        for i0, (a, b) in enumerate(zip(keys, plain)):
+                            if k0 in (a, b):
+                                for i1 in range(i0, len(lst)):
+                                    if k1 in (keys[i1], plain[i1]):
+                                        found = lst[i0:i1 + 1]
+                                        break
+                            if found:
+                                break
+                    if found:
+                        break
+                if found:
+                    break
+            if not found:
+                raise ContractError('fragment %r .. %r not found in %s' % (k0, k1, self.c.name))
+            body = found
         self.entry_premises = list(st.pc)
         self.canaries = []
         outs = self.block(body, st)
@@ -1465,6 +1497,12 @@ def _sb_lemma_modularity(eng, st, node):
     inx, iny, inm = z3.And(x >= 0, x < n), z3.And(y >= 0, y < n), z3.And(m >= 0, m < n)
     sym = z3.ForAll([x, y], z3.Implies(z3.And(inx, iny), z3.Select(z3.Select(W, x), y) == z3.Select(z3.Select(W, y), x)))
     out = []
+    single = z3.ForAll([y], z3.Implies(iny, z3.Select(c, y) == y + 1))
+    out.append(z3.Implies(single, z3.And(
+        z3.ForAll([x, m], z3.Implies(z3.And(inx, inm), modsum(W, c, x, m, n) == z3.Select(z3.Select(W, x), m)), patterns=[modsum(W, c, x, m, n)]),
+        z3.ForAll([x, m], z3.Implies(z3.And(inx, inm), modsumT(W, c, x, m, n) == z3.Select(z3.Select(W, m), x)), patterns=[modsumT(W, c, x, m, n)]),
+        z3.ForAll([m], z3.Implies(inm, degsum(W, c, m, n) == sum1(z3.Select(W, m), n)), patterns=[degsum(W, c, m, n)]),
+        z3.ForAll([m], z3.Implies(inm, degsumT(W, c, m, n) == csum(W, m, n)), patterns=[degsumT(W, c, m, n)]))))
     nolabel = z3.ForAll([y], z3.Implies(iny, z3.Select(c, y) != m + 1))
     out.append(z3.ForAll([x, m], z3.Implies(nolabel, modsum(W, c, x, m, n) == 0), patterns=[modsum(W, c, x, m, n)]))
     out.append(z3.ForAll([x, m], z3.Implies(nolabel, modsumT(W, c, x, m, n) == 0), patterns=[modsumT(W, c, x, m, n)]))
@@ -1582,6 +1620,6 @@ SPEC_BUILTINS = {
     'dot2': _sb_dot2, 'isperm': _sb_isperm, 'same_object': _sb_same_object, 'unchanged': _sb_unchanged,
     'snapshot': _sb_snapshot, 'argref': _sb_argref, 'lam1': _sb_lam1, 'result_is_empty': _sb_result_is_empty, 'hopsint': _sb_hopsint, 'lam2': _sb_lam2, 'unique_witness': _sb_unique_witness, 'member': _sb_member, 'dset': _sb_dset(dset), 'rset': _sb_dset(rset), 'wset': _sb_dset(wset), 'cntb': _sb_cntb,
     'modsum': _mk_mod(modsum, 3), 'modsumT': _mk_mod(modsumT, 3), 'degsum': _mk_mod(degsum, 2), 'degsumT': _mk_mod(degsumT, 2), 'agg': _mk_mod(agg, 3),
-    'Qmod': _sb_Qmod, 'tsum': _mk_specfn(tsum, 1), 'csum': _mk_specfn(csum, 2), 'lemma_modularity': _sb_lemma_modularity, 'lemma_knm_sums': _sb_lemma_knm_sums, 'lemma_relabel': _sb_lemma_relabel, 'lemma_q_from_aggregate': _sb_lemma_q_from_aggregate,
+    'Qmod': _sb_Qmod, 'QrawB': _mk_mod(QrawB, 1), 'tsum': _mk_specfn(tsum, 1), 'csum': _mk_specfn(csum, 2), 'lemma_modularity': _sb_lemma_modularity, 'lemma_knm_sums': _sb_lemma_knm_sums, 'lemma_relabel': _sb_lemma_relabel, 'lemma_q_from_aggregate': _sb_lemma_q_from_aggregate,
     'lemma_masked_degree': _sb_lemma_masked_degree, 'lemma_degree_monotone': _sb_lemma_degree_monotone, 'result': _sb_result, 'raised': _sb_raised, 'shape_is': _sb_shape_is,
 }
